@@ -321,6 +321,12 @@ def escape_lexemes(rng, n):
     for u in units:
         h = "%04x" % u
         out += ['"\\u%s"' % h, '"\\u%s"' % h.upper(), '"a\\u%sb"' % "".join(rng.choice([c, c.upper()]) for c in h)]
+    # surrogate pairs of escapes (fix C02-U1) and every way of NOT being a pair
+    for hi, lo in [(0xD83D, 0xDE00), (0xD800, 0xDC00), (0xDBFF, 0xDFFF), (rng.randrange(0xD800, 0xDC00), rng.randrange(0xDC00, 0xE000))]:
+        H, Lo = "%04X" % hi, "%04x" % lo
+        out += ['"\\u%s\\u%s"' % (H, Lo), '"a\\u%s\\u%sb"' % (H, Lo), '"\\u%s\\u%s"' % (Lo, H), '"\\u%s\\u%s\\u%s"' % (H, H, Lo),
+                '"\\u%s %s"' % (H, chr(lo)), '"\\u%s%s"' % (H, chr(lo)), '"%s\\u%s"' % (chr(hi), Lo), '"\\u%s\\n\\u%s"' % (H, Lo),
+                '"\\u%s\\u%s' % (H, Lo), '"\\u%s\\u%s' % (H, Lo[:3]), '"\\u%s\\u%sg"' % (H, Lo[:3]), '"\\u%s\\u0041"' % H]
     look = ["\u0661\u0662\u0663\u0664", "0x12", "0X1f", "123 ", " 123", "+123", "-123", "12_3", "1_23", "123\n", "123\t", "12\xa03", "\uff11234", "123g", "g123", "12\ud8003",
             "1234", "12345", "123", "12", "1", "", "12\"4", "1\\u0", "abcf", "ABCF", "aBcF", "000A", "00a0"]
     for k in look:
